@@ -8,7 +8,8 @@
      CI / CEI / VI / VEI / WSC / DE / PartOK / TwoPart : the defining properties of the eight domains. *)
 From Coq Require Import List Arith NArith ZArith QArith Qabs Bool Permutation.
 From PrefVerif Require Import Lib.Perms Model.C1P Model.Approval.
-From PrefVerif Require Proofs.C1P Proofs.Approval.
+From PrefVerif Require Import Lib.Val Model.PQTree.
+From PrefVerif Require Proofs.C1P Proofs.Approval Proofs.PQTree.
 Import ListNotations.
 Import Proofs.C1P Proofs.Approval.
 Local Open Scope nat_scope.
@@ -354,6 +355,90 @@ Print Assumptions reorder_sets_model_contract.
 Theorem ref_reorder_contract : reorder_contract (fun F => find (sets_check F) (perms F)).
 Proof. exact Proofs.C1P.ref_reorder_contract. Qed.
 Print Assumptions ref_reorder_contract.
+
+(* ---- the PQ-tree code itself (Model/PQTree.v: executable mirror of reorder_sets, P/Q.set_contiguous, simplify,
+   flatten, reverse; the harness demands EQUAL results of implementation and mirror on every contract-test family).
+   elems = the order in which reorder_sets visits the elements (iteration order of a CPython set: a parameter).
+   PROVED: the mirror only fails with ValueError (its fuel is never exhausted), an answer is a rearrangement of the
+   family, and it is SOUND: in the answer, for every element the sets containing it are consecutive.
+   NOT PROVED (pq_reorder_complete, the Booth-Lueker theorem for this variant): "Err ValueErr only if no arrangement
+   exists"; this half stays compared with the verified reference sets_decide / c1p_decide on bounded inputs. ---- *)
+Theorem pq_reorder_total : forall elems F,
+  (exists res, pq_reorder elems F = Ok res) \/ pq_reorder elems F = Err ValueErr.
+Proof. exact Proofs.PQTree.pq_reorder_total. Qed.
+Print Assumptions pq_reorder_total.
+
+Theorem pq_reorder_perm : forall elems F res, pq_reorder elems F = Ok res -> Permutation F res.
+Proof. exact Proofs.PQTree.pq_reorder_perm. Qed.
+Print Assumptions pq_reorder_perm.
+
+Theorem pq_reorder_sound : forall elems F res,
+  incl (concat F) elems -> pq_reorder elems F = Ok res ->
+  Permutation F res /\ forall v, Interval (fun s => In v s) res.
+Proof. exact Proofs.PQTree.pq_reorder_sound. Qed.
+Print Assumptions pq_reorder_sound.
+
+Theorem pq_reorder_sets_check : forall elems F res,
+  incl (concat F) elems -> pq_reorder elems F = Ok res -> sets_check F res = true.
+Proof. exact Proofs.PQTree.pq_reorder_sets_check. Qed.
+Print Assumptions pq_reorder_sets_check.
+
+(* the invariant behind it: set_contiguous v leaves the tree in a v-contiguous form, and every frontier a tree in
+   v-contiguous form represents keeps the sets containing v consecutive *)
+Theorem pq_CF_sound : forall v t, Proofs.PQTree.CF v t ->
+  forall o, Proofs.PQTree.Ord t o -> Interval (fun s => In v s) o.
+Proof. exact Proofs.PQTree.CF_sound. Qed.
+Print Assumptions pq_CF_sound.
+
+(* chained down: the mirrored solve_consecutive_ones / isC1P / recognisers on top of the mirrored PQ-tree, for
+   every matrix and every instance; elems_of F = any visiting order that covers the elements of F *)
+Theorem pq_solve_sound : forall elems_of, (forall F, incl (concat F) (elems_of F)) -> forall rows nc perm,
+  solve_model (Proofs.PQTree.pq_reorder_fn elems_of) rows nc = Some perm -> c1p_check rows nc perm = true.
+Proof. exact Proofs.PQTree.pq_solve_sound. Qed.
+Print Assumptions pq_solve_sound.
+
+Theorem pq_isC1P_sound : forall elems_of, (forall F, incl (concat F) (elems_of F)) -> forall rows nc,
+  isC1P_model (Proofs.PQTree.pq_reorder_fn elems_of) rows nc = true -> c1p_decide rows nc = true.
+Proof. exact Proofs.PQTree.pq_isC1P_sound. Qed.
+Print Assumptions pq_isC1P_sound.
+
+Theorem pq_ci_sound : forall elems_of, (forall F, incl (concat F) (elems_of F)) -> forall alts ballots order,
+  is_candidate_interval (solve_model (Proofs.PQTree.pq_reorder_fn elems_of)) alts ballots = Some order ->
+  ci_check alts ballots order = true.
+Proof. exact Proofs.PQTree.pq_ci_sound. Qed.
+Print Assumptions pq_ci_sound.
+Theorem pq_cei_sound : forall elems_of, (forall F, incl (concat F) (elems_of F)) -> forall alts ballots order,
+  is_candidate_extremal_interval (solve_model (Proofs.PQTree.pq_reorder_fn elems_of)) alts ballots = Some order ->
+  cei_check alts ballots order = true.
+Proof. exact Proofs.PQTree.pq_cei_sound. Qed.
+Print Assumptions pq_cei_sound.
+Theorem pq_vi_sound : forall elems_of, (forall F, incl (concat F) (elems_of F)) -> forall alts ballots border,
+  is_voter_interval (solve_model (Proofs.PQTree.pq_reorder_fn elems_of)) alts ballots = Some border ->
+  vi_check alts ballots border = true.
+Proof. exact Proofs.PQTree.pq_vi_sound. Qed.
+Print Assumptions pq_vi_sound.
+Theorem pq_vei_sound : forall elems_of, (forall F, incl (concat F) (elems_of F)) -> forall alts ballots border,
+  is_voter_extremal_interval (solve_model (Proofs.PQTree.pq_reorder_fn elems_of)) alts ballots = Some border ->
+  vei_check alts ballots border = true.
+Proof. exact Proofs.PQTree.pq_vei_sound. Qed.
+Print Assumptions pq_vei_sound.
+Theorem pq_wsc_sound : forall elems_of, (forall F, incl (concat F) (elems_of F)) -> forall alts ballots border,
+  is_weakly_single_crossing (solve_model (Proofs.PQTree.pq_reorder_fn elems_of)) alts ballots = Some border ->
+  wsc_check alts ballots border = true.
+Proof. exact Proofs.PQTree.pq_wsc_sound. Qed.
+Print Assumptions pq_wsc_sound.
+Theorem pq_de_sound : forall elems_of, (forall F, incl (concat F) (elems_of F)) -> forall alts ballots w,
+  Forall (fun b => incl b alts) ballots ->
+  is_dichotomous_euclidean (solve_model (Proofs.PQTree.pq_reorder_fn elems_of)) alts ballots = Some w ->
+  de_check alts ballots (fst w) (snd w) = true.
+Proof. exact Proofs.PQTree.pq_de_sound. Qed.
+Print Assumptions pq_de_sound.
+
+Example pq_nonvacuous :
+  pq_reorder [0;1;2;3] [[0;1];[2;3];[1;2];[3];[]] = Ok [[]; [0;1]; [1;2]; [2;3]; [3]] /\
+  pq_reorder [0;1;2] [[0;1];[1;2];[0;2]] = Err ValueErr /\
+  pq_reorder [0;1;2;3;4] [[1;2;4];[1;3;4];[0;1];[0]] = Ok [[0]; [0;1]; [1;2;4]; [1;3;4]].
+Proof. repeat split; vm_compute; reflexivity. Qed.
 
 (* ---- non-vacuity ---- *)
 Example c1p_nonvacuous :
